@@ -96,6 +96,12 @@ def enum_units(tier, seed):
                   [{"k": "block", "b": [{"k": "if", "c": ["bin", "+", ["id", "sc_c.k_d"], L(0)], "t": [db(L(0x11))], "e": [db(L(0x22))]}]}]):
         cases.append({"rom": "low", "files": {}, "ir": [{"k": "const", "n": "k_d", "e": L(1), "eager": True}, org, {"k": "scope", "n": "sc_c", "b": inner + [db(L(3))]},
                                                        {"k": "if", "c": ["id", "sc_x.k_d"], "t": [db(L(0x33))], "e": [db(L(0x44))]}, {"k": "if", "c": ["id", "k_d"], "t": [db(L(0x55))], "e": None}, db(L(0xEE))]})
+    # a branch may contain macro definitions: after the .if they are as if the taken branch had been written in its place
+    mv = lambda *bytes_: {"k": "macro", "n": "m_v", "ps": [], "b": [db(*[L(b) for b in bytes_])]}
+    for c in (L(1), L(0), ["id", "k_undefined"], ["neg", L(1)]):
+        cases.append({"rom": "low", "files": {}, "ir": [org, mv(0xA1), {"k": "call", "n": "m_v", "args": []}, {"k": "if", "c": c, "t": [mv(0xA2, 0xA3)], "e": [mv(0xA4, 0xA5, 0xA6)]},
+                                                       {"k": "call", "n": "m_v", "args": []}, {"k": "for", "v": "i_0", "lo": L(0), "hi": L(2), "b": [{"k": "if", "c": ["id", "i_0"], "t": [mv(0xA7)], "e": None}, {"k": "call", "n": "m_v", "args": []}]},
+                                                       {"k": "call", "n": "m_v", "args": []}, db(L(0xEE))]})
     # condition values
     for c in (L(0), L(1), L(5), ["neg", L(1)], ["id", "k_undefined"], ["bin", "-", L(2), L(2)], ["bin", "&", L(6), L(3)]):
         for has_else in (False, True):
